@@ -250,7 +250,7 @@ Definition pays (pre : state) (o : op) (post : state) : option (bool * name) :=
    2 = C15.supply_address_transacts *)
 Definition step_findings (E : env) (touched : bool) (minted refunded : list name)
            (pre : state) (o : op) (post : state) (ok : bool) : list (nat * nat) :=
-  let here := trig_supply E o in
+  let here := trig_supply E pre o in
   let sup := touched || here in
   (if k_unique post then [] else [(1%nat, 0%nat)]) ++
   (if k_supply E post || negb (k_supply E pre) then [] else [(2%nat, if sup then 2%nat else 0%nat)]) ++
@@ -278,7 +278,7 @@ Fixpoint monitor (E : env) (touched : bool) (minted refunded : list name) (pre :
       let minted' := match pays pre o post with Some (true, n) => n :: minted | _ => minted end in
       let refunded' := match pays pre o post with Some (false, n) => n :: refunded | _ => refunded end in
       map (fun '(k, cl) => (i, k, cl)) f ++
-      monitor E (touched || trig_supply E o) minted' refunded' post ops' os' (S i)
+      monitor E (touched || trig_supply E pre o) minted' refunded' post ops' os' (S i)
   | _, _ => []
   end.
 
@@ -307,10 +307,10 @@ Fixpoint stats_run (E : env) (s : state) (ops : list op) (acc : list Z) : list Z
                 let crossy := gv && b && (threshold t <=? yes_votes t + 1) in
                 let crossn := gv && negb b && (threshold t <=? no_votes t + 1) in
                 [g + (if gv then 1 else 0); cy + (if crossy then 1 else 0); cn + (if crossn then 1 else 0);
-                 ll + (if crossy && trig_locker s o then 1 else 0); ts + (if trig_supply E o then 1 else 0)]
-            | None => [g; cy; cn; ll; ts + (if trig_supply E o then 1 else 0)]
+                 ll + (if crossy && trig_locker s o then 1 else 0); ts + (if trig_supply E s o then 1 else 0)]
+            | None => [g; cy; cn; ll; ts + (if trig_supply E s o then 1 else 0)]
             end
-        | _ => [g; cy; cn; ll; ts + (if trig_supply E o then 1 else 0)]
+        | _ => [g; cy; cn; ll; ts + (if trig_supply E s o then 1 else 0)]
         end in
       stats_run E s' ops' acc'
   | _, _ => acc
